@@ -1036,6 +1036,8 @@ const HOSTS: &[&str] = &[
     // formats must fold it the same way
     "ΟΔΟΣ24.gr", "ΕΛΛΆΣ-news.gr", "news.ΕΛΛΆΣ", "ΕΛΛΆΣ.gr", "οδος24.gr", "ΣΊΣΥΦΟΣ.gr", "ẞ.de", "ǅ.com", "\u{212a}.com", "ﬁ.com",
     "WWW.ΟΔΟΣ24.gr",
+    // compatibility characters that IDNA maps to ASCII (full-width letters, a full-width dot)
+    "ｗｗｗ.example.com", "ｅxample.com", "example．com", "www．example.com",
     // dotted edge cases and things the hosts parser refuses
     ".example.com", "example.com.", "example..com", ".", "..", ".com", "com", "localhost",
     "localhost.localdomain", "a.", ".a.b", "LOCALHOST",
